@@ -110,6 +110,24 @@ def _tname(t):
             'peer': 'a peer-decoded item of peer-chosen type (no str()/int() coercion)'}.get(t, t)
 
 
+def _variant_ints(tree, ob):
+    ''' recv_bundle_started carries the announced total length in a variant: dbus-python marshals a bare int there as INT32.
+    _rx_setup is handed None today; a length taken from the peer must be wrapped (dbus.UInt64) first. '''
+    cls = tree.klass(SESS, 'ContactHandler')
+    for item in cls.body:
+        if isinstance(item, ast.FunctionDef):
+            for c in method_calls(item, '_rx_setup', 'self'):
+                if len(c.args) >= 2:
+                    a = c.args[1]
+                    fvx = FuncView(tree, SESS, 'ContactHandler.' + item.name)
+                    v = fvx.value_at(a, c, depth=2)
+                    if (isinstance(v, ast.Constant) and v.value is None) or (isinstance(v, ast.Call) and (call_name(v) or '').startswith('dbus.UInt')):
+                        ob.site(SESS, c, '_rx_setup: total length absent or explicitly typed')
+                    else:
+                        ob.violate(SESS, 'ContactHandler.' + item.name, src(c), 'an integer taken from the peer reaches the variant element of recv_bundle_started as a bare int (marshalled as INT32): an announced '
+                                   'length of 2^31 or more raises OverflowError at emission, in the receive callback', c)
+
+
 def _int_ranges(tree, ob):
     ''' An integer taken from a peer message and emitted in a signed 32-bit element must have been bounded. '''
     fv = FuncView(tree, UAGENT, 'Agent._recv_ext_map')
@@ -128,6 +146,7 @@ def _int_ranges(tree, ob):
 
 def c18a(tree, ob):
     _int_ranges(tree, ob)
+    _variant_ints(tree, ob)
     for (rel, clsname) in CLASSES:
         sigs, _m = collect(tree, rel, clsname)
         ob.require(sigs, 'no signals found on ' + clsname)
@@ -262,6 +281,9 @@ def c18c(tree, ob):
                     ob.site(SESS, d, item.name + ' removes exactly the requested id')
                 else:
                     ob.violate(SESS, qual, src(d), 'a received bundle leaves the queue outside the pop methods', d)
+    # UDPCL: a transfer that cannot be sent is finished as failed, and does not take the later ones with it (= C13.b)
+    from .c13 import c13_tx_isolation
+    c13_tx_isolation(tree, ob)
     # popping to a file: the transfer leaves the queue only once it has been written out
     for (rel, clsname, mapattr) in ((SESS, 'ContactHandler', '_rx_map'), (UAGENT, 'Agent', '_rx_queue')):
         if not tree.has_func(rel, clsname + '.recv_bundle_pop_file'):
